@@ -25,6 +25,24 @@ def emit(ctx, cfg, what, workers=8):
     return list(groups.values())
 
 
+LAM = 2.0 ** -60      # physical size of the unit tier when a case uses the tier encoding (energies >= 1000 are "tier 0")
+
+
+def tiered(case):
+    return any(e['en'] >= 1000 for e in case['ent'])
+
+
+def phys(x, case):
+    """decode a model energy (entry energy, total, dropped energy, budget) into the physical one"""
+    if not tiered(case):
+        return float(x)
+    return float(x // 1000) + float(x % 1000) * LAM
+
+
+def phys_ent(case):
+    return [dict(pre=e['pre'], en=phys(e['en'], case)) for e in case['ent']]
+
+
 def input_ranks(case):
     d = case['d']
     return [len({tuple(e['pre'][:b]) for e in case['ent']}) for b in range(1, d)]
@@ -34,9 +52,10 @@ def judge(case, rz, err2, Zd, n, Qs, scale, budget_total, what):
     """Compare the code's (ranks, err^2, dense result) with the model outcomes.
     Returns None if conforming, else a message."""
     outs = case['outcomes']
-    N = case['N'] * scale * scale
+    N = phys(case['N'], case) * scale * scale
     cap = case['cap']
-    tol = 1e-9 * N + 1e-300
+    unit = (LAM if tiered(case) else 1.) * scale * scale
+    tol = 1e-4 * unit + 1e-300
     inr = input_ranks(case)
     if any(not (1 <= a <= max(1, cap)) for a in rz):
         return '%s: rank outside [1, max(1,cap)]: %s cap=%s' % (what, rz, cap)
@@ -45,14 +64,18 @@ def judge(case, rz, err2, Zd, n, Qs, scale, budget_total, what):
     if any(a > b for a, b in zip(rz, case['minrank'])):
         return '%s: ranks %s above the smallest ranks meeting the per-unfolding budget on the input %s' % (what, rz, case['minrank'])
     any_tie = any(o['tie'] for o in outs)
+    if tiered(case) and any(o['capHit'] for o in outs):
+        # a binding cap cuts between tier-0 groups whose energies differ only at relative size 2^-60: numerically a tie
+        any_tie = True
     if not any_tie:
         o = outs[0]
         if rz != o['ranks']:
             return '%s: ranks %s, specification %s (cap-limited=%s)' % (what, rz, o['ranks'], o['capHit'])
-        if abs(err2 - o['dropped'] * scale * scale) > tol:
-            return '%s: err^2 %.6g, specification %.6g' % (what, err2, o['dropped'] * scale * scale)
-        E = F.survivors_dense(n, case['ent'], o['live'], Qs, scale)
-        if np.abs(E - Zd).max() > 1e-9 * np.sqrt(N):
+        dphys = phys(o['dropped'], case) * scale * scale
+        if abs(err2 - dphys) > tol + 1e-9 * dphys:
+            return '%s: err^2 %.6g, specification %.6g' % (what, err2, dphys)
+        E = F.survivors_dense(n, phys_ent(case), o['live'], Qs, scale)
+        if np.abs(E - Zd).max() > (1e-3 * np.sqrt(LAM) if tiered(case) else 1e-9 * np.sqrt(phys(case['N'], case))) * scale:
             return '%s: result differs from the surviving entries by %.3g' % (what, np.abs(E - Zd).max())
         return None
     # a tie straddles a cut: the truncated SVD is not unique; inequalities only
@@ -64,11 +87,14 @@ def judge(case, rz, err2, Zd, n, Qs, scale, budget_total, what):
 
 def replay_truncate(ctx, case, rng, is_eigh, use_stab, scale_pow=0, pad=False, order=None):
     d = case['d']
-    Y, n = F.family_member(d, case['npre'], case['ent'])
+    Y, n = F.family_member(d, case['npre'], phys_ent(case))
     Y, Qs = F.apply_symmetries(Y, n, rng, pad=pad, scale_pow=scale_pow, order=order)
     scale = 2.0 ** scale_pow
-    N, T = case['N'], case['T']
-    e = float(np.sqrt((2 * T + 1) * (d - 1) / (2.0 * N)))
+    N, T = phys(case['N'], case), case['T']
+    if N == 0:
+        e = 0.5
+    else:
+        e = float(np.sqrt((2 * T + 1) * (LAM if tiered(case) else 1.) * (d - 1) / (2.0 * N)))
     cap = case['cap'] if case['cap'] != 99 else 1.E+12
     Z = teneva.truncate(Y, e, cap, use_stab=use_stab, is_eigh=is_eigh)
     what = 'truncate(e=%.4g, r=%s, is_eigh=%s, use_stab=%s, 2^%d)' % (e, case['cap'], is_eigh, use_stab, scale_pow)
@@ -82,12 +108,12 @@ def replay_truncate(ctx, case, rng, is_eigh, use_stab, scale_pow=0, pad=False, o
 
 def replay_svd(ctx, case, rng, scale_pow=0):
     d = case['d']
-    Y, n = F.family_member(d, case['npre'], case['ent'])
+    Y, n = F.family_member(d, case['npre'], phys_ent(case))
     Y, Qs = F.apply_symmetries(Y, n, rng, gauge=False)
     scale = 2.0 ** scale_pow
     Fd = F.dense(Y) * scale
     T = case['T']
-    e = float(np.sqrt(T + 0.5)) * scale
+    e = float(np.sqrt((T + 0.5) * (LAM if tiered(case) else 1.))) * scale
     cap = case['cap'] if case['cap'] != 99 else 1.E+12
     Z = teneva.svd(np.array(Fd), e, cap)
     what = 'svd(e=%.4g, r=%s, scale 2^%d)' % (e, case['cap'], scale_pow)
@@ -101,7 +127,7 @@ def replay_svd(ctx, case, rng, scale_pow=0):
 
 def replay_matrix(ctx, case, rng, fn, give_to=None, scale_pow=0):
     """d = 2 cases through matrix_skeleton (give_to l/m/r, rel) and matrix_svd."""
-    Y, n = F.family_member(2, case['npre'], case['ent'])
+    Y, n = F.family_member(2, case['npre'], phys_ent(case))
     Y, Qs = F.apply_symmetries(Y, n, rng, gauge=False)
     scale = 2.0 ** scale_pow
     A = F.dense(Y) * scale
@@ -109,7 +135,7 @@ def replay_matrix(ctx, case, rng, fn, give_to=None, scale_pow=0):
         A = np.asfortranarray(A)
     T = case['T']
     rel = case['dir'] == 'rel'
-    e = float(np.sqrt((T + 0.5) / 8.0)) if rel else float(np.sqrt(T + 0.5)) * scale
+    e = float(np.sqrt((T + 0.5) / 8.0)) if rel else float(np.sqrt((T + 0.5) * (LAM if tiered(case) else 1.))) * scale
     cap = case['cap'] if case['cap'] != 99 else 1.E+12
     transpose = False
     if fn == 'skeleton':
@@ -148,7 +174,6 @@ def replay_matrix(ctx, case, rng, fn, give_to=None, scale_pow=0):
 
 def _group_energies(case):
     en = {}
-    live = set(case['outcomes'][0]['live']) if False else None
-    for e in case['ent']:
+    for e in phys_ent(case):
         en[tuple(e['pre'][:1])] = en.get(tuple(e['pre'][:1]), 0) + e['en']
     return list(en.values())
